@@ -359,7 +359,9 @@ def call_method(interp, base, name, node, args, kwargs, st):
             dim = dim_contract(dim) if ax is None or not (ax.has_const() and ax.const in (0,)) else dim
         if name == "tolist":
             return Val(dim=dim, kind="list", deps=deps, pdeps=pdeps, born=t, tags=frozenset(["tolist"]))
-        keep = frozenset(tg for tg in base.tags if isinstance(tg, tuple) and tg[0] == "saved-centroid") if name == "copy" else frozenset()
+        keep = frozenset(tg for tg in base.tags if isinstance(tg, tuple) and tg[0] in ("saved-centroid", "getter-of")) if name in ("copy", "astype") else frozenset()
+        if name in ("copy", "astype"):
+            keep = keep | frozenset([("val-of", interp.val_id(base))])
         return Val(dim=dim, kind=base.kind if base.kind in ("arr", "idx", "float") else "arr", deps=deps, pdeps=pdeps, born=t, tags=keep)
     if name in ("all", "any"):
         interp.emit(st, "reduce", node, fn=name, target=base, axis=_arg(args, kwargs, 0, "axis"), method=True)
@@ -450,6 +452,10 @@ def call_ext(interp, ext, node, args, kwargs, st):
             interp.newobj += 1
             from .values import ObjRef
             o = ObjRef(a0.obj.cls, f"new#copy{interp.newobj}")
+            if ext == "copy.copy":
+                # shallow copy: every attribute not rebound afterwards is shared with the original
+                st.comp.setdefault("__shallow", {})[o.oid] = (a0.obj.oid, frozenset())
+                return Val(kind="obj", obj=o, dim=TOP, deps=deps, born=t, tags=frozenset(["shallowcopy"]))
             return Val(kind="obj", obj=o, dim=TOP, deps=deps, born=t, tags=frozenset(["deepcopy"]))
         return a0.copy(al=frozenset(), born=t) if a0 is not None else Val()
 
@@ -502,7 +508,17 @@ def call_ext(interp, ext, node, args, kwargs, st):
                     return Val(kind="tuple", items=(u, Val(dim=D0, kind="idx", deps=deps, born=t)), dim=TOP, born=t)
             sym = a0.sym if name in ("abs", "absolute", "array", "asarray", "copy") and a0.kind in ("float", "int") else None
             if name in ("array", "asarray", "copy", "asanyarray", "atleast_1d", "squeeze"):
-                tags = tags | frozenset(tg for tg in a0.tags if isinstance(tg, tuple) and tg[0] == "saved-centroid")
+                tags = tags | frozenset(tg for tg in a0.tags if isinstance(tg, tuple) and tg[0] in ("saved-centroid", "getter-of"))
+            if name in ("array", "asarray", "copy", "asanyarray", "ascontiguousarray"):
+                tags = tags | frozenset([("val-of", interp.val_id(a0))])
+            if name in ("array", "asarray", "asanyarray") and "dtype" not in kwargs and len(args) < 2:
+                # the dtype is the caller's: integers stay an integer array (in-place float arithmetic then raises)
+                els = list(a0.items) if (a0.kind in ("list", "tuple") and a0.items is not None) else [a0]
+                if els and all(("raw-param" in e.tags) or (e.is_number_const() and isinstance(e.const, int)) for e in els) \
+                        and any("raw-param" in e.tags for e in els):
+                    tags = tags | frozenset(["maybe-int"])
+            elif name == "copy" and "maybe-int" in a0.tags:
+                tags = tags | frozenset(["maybe-int"])
             return Val(dim=dim, kind=kind, al=al, deps=deps, pdeps=pdeps, born=born, tags=tags,
                        guardp=a0.guardp if name in ("asarray", "array", "copy", "squeeze", "atleast_1d") else frozenset(),
                        sym=sym, items=None)
@@ -565,7 +581,8 @@ def call_ext(interp, ext, node, args, kwargs, st):
             if name in ("argsort", "lexsort") and a0 is not None:
                 interp.emit(st, "reorder", node, fn=name, target=a0)
             tags = frozenset(["perm"]) if name in ("argsort", "lexsort") else frozenset()
-            return fresh(D0, kind="idx", tags=tags | frozenset(["1d"]) if name in ("lexsort",) else tags)
+            one_d = name in ("lexsort", "flatnonzero", "arange") or (name in ("argmax", "argmin") and _reduce_axis_kw(args, kwargs) is not None)
+            return fresh(D0, kind="idx", tags=tags | (frozenset(["1d"]) if one_d else frozenset()) | frozenset([("index-from", name)]))
         if name in LOGICAL:
             if name in ("all", "any"):
                 interp.emit(st, "reduce", node, fn=name, target=a0, axis=_reduce_axis_kw(args, kwargs), method=False)
@@ -906,7 +923,7 @@ def _builtin(interp, name, node, args, kwargs, st, fresh, deps, pdeps):
     if name == "dict":
         return Val(kind="dict", mapping={k: v for k, v in kwargs.items()} if not args else None, dim=D0, deps=deps, born=t)
     if name == "open":
-        return Val(kind="file", dim=D0, born=t)
+        return Val(kind="file", dim=D0, born=t, deps=deps, pdeps=pdeps, tags=frozenset([("ret", "builtins.open")]))
     if name == "print":
         return vconst(None)
     if name == "type":
